@@ -82,6 +82,7 @@ func genC10(seed uint64, idx int, tier string) *Scenario {
 		if r.Chance(0.5) {
 			sc.Params["yield_hot"] = []int{15, 30, 50}[r.Intn(3)] // a subset of the sites always yields
 		}
+		sc.Params["yield_rounds"] = []int{1, 4, 16}[r.Intn(3)]
 		sc.Class += " flood yields"
 	} else if r.Chance(0.4) {
 		bursty := r.Chance(0.5)
